@@ -101,8 +101,16 @@ class Analyzer:
     def __init__(self, prog, stored_receivers=("fld", "srf", "self", "field_obj")):
         self.prog = prog
         self.funcs = {}  # fq -> (module, node, ClassInfo|None, kind)
+        self.escaping_closures = set()  # fq of nested functions that their parent returns (callables handed to other code)
         for m, q, f, ci, kind in prog.all_functions():
             if kind == "nested":
+                # a closure that its parent RETURNS is called by other code with that code's arrays: analyse it as an entry of its own
+                parent_q = q.rsplit(".<locals>.", 1)[0]
+                parent = m.functions.get(parent_q)
+                if parent is not None and any(isinstance(n, ast.Return) and isinstance(n.value, ast.Name) and n.value.id == f.name for n in ast.walk(parent)):
+                    fq = "%s::%s" % (m.relpath, q)
+                    self.funcs[fq] = (m, f, None, "nested")
+                    self.escaping_closures.add(fq)
                 continue
             self.funcs["%s::%s" % (m.relpath, q)] = (m, f, ci, kind)
         self.summ = {fq: Summary() for fq in self.funcs}
